@@ -11,6 +11,10 @@ def groups(tier):
                   clause='receive_chunk: replica, announcement and key shares live for manifest_ttl; nothing changes on the reject paths', **K),
             Group('announce.derived_state', entry='h_announce',
                   clause='handle_announce: key shares live for manifest_ttl; nothing changes for an expired / too short-lived manifest', **K),
+            Group('announce.contact_ttl', 'announce_ttl', 'C03/contact_ttl.c', entry='h_contact_ttl', enforce='Node__handle_announce__slice_contact_ttl', unwind=3, kind='unbounded',
+                  backend=['sat', 'cadical', 'cvc5'], replay='contact', timeout=300,
+                  clause='handle_announce (the statements computing the provider contact lifetime, lowered as a slice): for every announced TTL the contact '
+                         'lives no longer than the admitted manifest TTL and at least the minimum TTL'),
             Group('shards.lifetime', 'kad_shards', 'C11/shards.c', entry='h_publish_lookup', replace=['chunk_id_to_string'], unwind=8, kind='unbounded',
                   backend=['cvc5', 'z3', 'sat'], replay='republish', timeout=300, defines=['CXX_FIXED_STORAGE', 'CXX_VEC_CAP=4'],
                   clause='publish_shards / shard_record (E2, all prior entry states, TTLs and clock readings): the share record lives for exactly the TTL it was '
@@ -22,6 +26,6 @@ def replay(group, trace):
     sys.path.insert(0, os.path.join(root, 'replay'))
     import replaylib as R
     exe = R.build_full('C11.cpp', with_daemon=False)
-    rc, out = R.run(exe, ['republish' if group.replay == 'republish' else 'ttl'], timeout=240)
+    rc, out = R.run(exe, [group.replay if group.replay in ('republish', 'contact') else 'ttl'], timeout=240)
     last = [l for l in out.strip().splitlines() if l.strip()][-1:] or ['']
     return rc == 1, last[0][:400]
